@@ -20,7 +20,14 @@ def run(ctx):
     ctx.extract(["layout", "layoutloops", "layoutdecide", "layoutlisteq"])
     ctx.prove(PROPS, extra_modules=MODULES)
     if ctx.build_harness("c02"):
-        ctx.harness("c02", ["run", ctx.seed, ctx.tier], timeout=3000)
+        rep = ctx.harness("c02", ["run", ctx.seed, ctx.tier], timeout=3000)
+        if rep is not None:
+            # the representation battery must REACH its class: among the pairs of equal
+            # values compared as list elements whose bytes the host can see, some differ
+            # in bytes outside the value (measured through the hook element_bytes)
+            h = rep.get("histograms", {}).get("equal_values_compared_as_list_elements_bytes", {})
+            ctx.obligation("reach:equal-values-with-other-bytes", h.get("differ", 0) >= 20,
+                           f"measured pairs: {h} (the painted stack no longer reaches the bytes outside the values)")
     ctx.trusted += [
         "usize is modelled as Nat: no wrap-around in layout arithmetic (sizes of real types are far below 2^64)",
         "leaf layouts (primitives, String, List, registered types) are whatever the runtime reports; theorems assume only that they pass Layout::new's asserts",
